@@ -122,25 +122,32 @@ AcceptedAsk(ls, i, m, size) ==
                  /\ \A p \in MbPackets(size, inner - MbHeader) : Accepted(ls, i + 1, m, p)
             ELSE AcceptedAsk(ls, i + 1, m, MuxHeader(ls[i]) + size)
 
-\* a stack the code can be configured with: every fragmenting layer has room for at least 8 payload
-\* bytes per packet, every layer reports a positive MTU
+\* a stack the code can be configured with: fragswarm has room for at least 8 payload bytes per packet, mbapp
+\* for at least 1 (with 1 or 2 bytes per part the 16-bit part-count limit binds for payloads of 64..128 kB),
+\* every layer reports a positive MTU
 RECURSIVE ValidAt(_, _, _)
 ValidAt(ls, i, m) ==
     IF i > Len(ls) THEN TRUE
     ELSE LET inner == MtuAt(ls, i + 1, m) IN
          /\ ValidAt(ls, i + 1, m)
          /\ (ls[i].k = "frag" => inner - FragOverhead >= 8)
-         /\ (ls[i].k = "mbapp" => inner - MbHeader >= 8)
+         /\ (ls[i].k = "mbapp" => inner - MbHeader >= 1)
          /\ (ls[i].k = "p2pke" => inner >= 512)       \* the handshake messages must fit the transport beneath
          /\ LayerMtu(ls[i], inner) >= 1
 
 ---------------------------------------------------------------------------
 (* C09 on observations: one Tell / Ask of `size` bytes on a stack whose REAL MTU() is mtu;           *)
 (* err in {"nil", "mtu", "other"}, nd = number of payloads delivered, eq = all equal to what was sent, *)
-(* other3 = the non-MTU error repeated on three fresh stacks                                          *)
-ObsViol(size, mtu, err, nd, eq, other3) ==
+(* other3 = the non-MTU error repeated on three fresh stacks; part = some delivered payload / request is  *)
+(* a proper part of what was sent; lostc = an accepted payload was not delivered, again not on a fresh    *)
+(* stack, while a control payload sent right after it was (the base transports of the harness are        *)
+(* lossless).  "Delivered" covers EVERY payload the receiving Receive callback / ServeAsk handler saw    *)
+(* during the exchange and, for an Ask, the answer the asker got.                                        *)
+ObsViol(size, mtu, err, nd, eq, other3, part, lostc) ==
     (IF size <= mtu /\ err = "mtu" THEN {"UndersizeRejected"} ELSE {})
     \cup (IF size <= mtu /\ nd > 0 /\ ~eq THEN {"Corrupted"} ELSE {})
+    \cup (IF size <= mtu /\ nd > 0 /\ part THEN {"DeliveredInPart"} ELSE {})
+    \cup (IF size <= mtu /\ err = "nil" /\ nd = 0 /\ lostc THEN {"AcceptedNotDelivered"} ELSE {})
     \cup (IF size > mtu /\ err = "nil" THEN {"OversizeAccepted"} ELSE {})
     \cup (IF size > mtu /\ nd > 0 THEN {"OversizeDelivered"} ELSE {})
     \cup (IF size > mtu /\ err = "other" /\ other3 THEN {"OversizeWrongError"} ELSE {})
@@ -228,5 +235,5 @@ Spec == Init /\ [][Next]_svars
 Honest ==
     \A size \in BoundarySizes(layers, innerMtu, Big), op \in {"tell"} \cup (IF HasAsk(layers) THEN {"ask"} ELSE {}) :
         LET o == ModelOutcome(layers, innerMtu, size, op)
-        IN ObsViol(size, StackMtu(layers, innerMtu), o.err, o.nd, o.eq, FALSE) = {}
+        IN ObsViol(size, StackMtu(layers, innerMtu), o.err, o.nd, o.eq, FALSE, FALSE, FALSE) = {}
 =============================================================================
